@@ -110,6 +110,23 @@ def splatAt (rows cols : Nat) (xa ya : R) (i j : Nat) : R :=
 def weightMapAt (rows cols n : Nat) (pt : Nat → R × R) (i j : Nat) : R :=
   sumN n fun p => splatAt rows cols (pt p).1 (pt p).2 i j
 
+/-! ## Gaussian KDE (`scipy.ndimage.gaussian_filter`, one axis) -/
+
+/-- correlation of a length-`n` signal with a kernel of radius `r` (`w 0 … w (2r)`, centre `w r`) under
+`mode="wrap"`: `out[i] = Σ_d w[d] · x[(i + d - r) mod n]` -/
+def convWrap (n r : Nat) (w x : Nat → R) (i : Nat) : R :=
+  sumN (2 * r + 1) fun d => w d * x (wrap n ((i : Int) + d - r))
+
+/-- index map of `mode="reflect"` (the default of `gaussian_filter`, the mode the code uses):
+`(d c b a | a b c d | d c b a)`, i.e. the even extension of period `2n` -/
+def reflIdx (n : Nat) (z : Int) : Nat :=
+  let j := wrap (2 * n) z
+  if j < n then j else 2 * n - 1 - j
+
+/-- the same correlation under `mode="reflect"` -/
+def convReflect (n r : Nat) (w x : Nat → R) (i : Nat) : R :=
+  sumN (2 * r + 1) fun d => w d * x (reflIdx n ((i : Int) + d - r))
+
 /-! ## translation alignment -/
 
 /-- a Fourier-space image (`np.fft.fft2` of a canvas, or the running reference `F_ref`) -/
